@@ -70,6 +70,7 @@ class Zygote(object):
             'VERIF_REPO': self.pool.repo,
             'VERIF_DIR': VERIF_DIR,
             'VERIF_SCRATCH': os.path.join(self.pool.scratch, 's%03d' % (self.slot % 1000)),
+            'VERIF_ZYGOTE_KIND': self.pool.kind,
         }
         cmd = [PY, '-S', os.path.join(VERIF_DIR, 'sim', 'zygote.py')]
         if self.pool.use_setarch:
@@ -162,7 +163,8 @@ class Zygote(object):
 class Pool(object):
     """K hash seeds x W zygotes each.  Jobs carry '_hs' (index into hashseeds) and '_cb'."""
 
-    def __init__(self, repo, hashseeds, workers, wall_cap=60.0, use_setarch=True):
+    def __init__(self, repo, hashseeds, workers, wall_cap=60.0, use_setarch=True, kind='api'):
+        self.kind = kind
         self.repo = os.path.realpath(repo)
         self.hashseeds = list(hashseeds)
         self.wall_cap = wall_cap
